@@ -173,6 +173,23 @@ Definition P_TTL : N := 20.         (* TTL ageing changed more than the TTL *)
 
 Definition lenle (b : list N) (n : N) : bool := lenN b <=? n.
 
+(* the first k records of m in wire order (OPT pseudo-record last) *)
+Definition cut_pkt (m : pkt) (k : nat) : pkt :=
+  let k1 := (k - length (answer m))%nat in
+  let k2 := (k1 - length (nameserver m))%nat in
+  let k3 := (k2 - length (additional m))%nat in
+  {| qid := qid m; rd := rd m; tc := tc m; aa := aa m; qr := qr m; opcode := opcode m;
+     cd := cd m; ad := ad m; ra := ra m; rcode := rcode m; bufsize := bufsize m;
+     edns_ver := edns_ver m; edns_do := edns_do m;
+     qname := qname m; qtype := qtype m; qclass := qclass m;
+     answer := firstn k (answer m); nameserver := firstn k1 (nameserver m);
+     additional := firstn k2 (additional m);
+     edns := match k3 with O => None | S _ => edns m end |}.
+
+Definition records_kept (m' : pkt) : nat :=
+  (length (answer m') + length (nameserver m') + length (additional m')
+   + match edns m' with Some _ => 1 | None => 0 end)%nat.
+
 (* common monitor on "message m was serialised with limit size into e":
    None = all predicates hold (with: were records dropped) *)
 Definition monitor_sized (m : pkt) (size : N) (e : list N) (full_len : option N) : list N + bool :=
@@ -186,6 +203,10 @@ Definition monitor_sized (m : pkt) (size : N) (e : list N) (full_len : option N)
     | Some dropped =>
       if negb (Bool.eqb (tc m') (tc m || dropped)) then inl (v_viol P_TC) else
       if dropped && match full_len with Some l => l <=? size | None => false end then inl (v_viol P_FITS)
+      else if dropped && match encode_sized (cut_pkt m (S (records_kept m'))) 1000000000 with
+                         | Ok b => lenN b <=? size      (* the first dropped record would have fitted *)
+                         | _ => false
+                         end then inl (v_viol P_FITS)
       else inr dropped
     end
   end.
